@@ -583,7 +583,8 @@ fn set_at(v: &mut Value, p: &[Step], new: Value) {
 }
 
 fn retype_values() -> Vec<Value> {
-    vec![Value::Null, json!(true), json!(false), json!(0), json!(-1), json!(1.5), json!(""), json!("s"), json!([]), json!({}), json!([1, "a"]), json!({"a": 1}), json!(18446744073709551615u64), json!([[[[]]]])]
+    vec![Value::Null, json!(true), json!(false), json!(0), json!(-1), json!(1.5), json!(""), json!("s"), json!([]), json!({}), json!([1, "a"]), json!({"a": 1}), json!(18446744073709551615u64), json!([[[[]]]]),
+         json!(9223372036854775807u64), json!(9223372036854775808u64), json!(-9223372036854775808i64), json!(1e19), json!(1.7e308), json!(1), json!(4), json!(0.4), json!(4294967296u64)]
 }
 
 fn resign(parts: &Parts, header: &Value, payload: &Value, key: KeyId) -> Parts {
@@ -928,7 +929,22 @@ fn wild_paths(r: &mut Rng, claims: &Value) -> Vec<String> {
     let mut ps = vec![];
     all_positions(claims, &vec![], &mut ps);
     for _ in 0..r.below(6) {
-        match r.below(7) {
+        match r.below(9) {
+            7 | 8 => {
+                // the path of a real array element with the index written some other way (beyond every machine integer, signed,
+                // padded, in another base or script, empty)
+                let with_idx: Vec<Pos> = ps.iter().filter(|p| p.iter().any(|s| matches!(s, Step::Idx(_)))).cloned().collect();
+                if !with_idx.is_empty() {
+                    let chosen = with_idx[r.below(with_idx.len())].clone();
+                    let s = spell(r, &chosen);
+                    if let (Some(a), Some(b)) = (s.rfind('['), s.rfind(']')) {
+                        if a < b {
+                            let idx = *r.pick(&["18446744073709551616", "18446744073709551615", "9223372036854775808", "99999999999999999999999999999999", "4294967296", "-1", "-0", "+0", " 0", "0 ", "00", "0x0", "1e0", "", "*", "\u{663}", "0][", "0.0"]);
+                            out.push(format!("{}[{}]{}", &s[..a], idx, &s[b + 1..]));
+                        }
+                    }
+                }
+            }
             0 | 1 => out.push(WILD_PATHS[r.below(WILD_PATHS.len())].to_string()),
             2 => out.push((0..r.below(12)).map(|_| *r.pick(&['$', '.', '[', ']', '0', '1', 'a', 'n', 'x', ' '])).collect()),
             3 => out.push(format!("$.{}", unicode_string(r))),
